@@ -4,6 +4,7 @@
 //!   vh selftest
 
 mod bridge;
+mod encmodel;
 mod gen;
 mod monitor;
 mod prng;
@@ -32,6 +33,8 @@ fn table(id: &str) -> Option<(RunFn, ReplayFn)> {
         "C02" => (props::c02::run, props::c02::replay),
         "C03" => (props::c03::run, props::c03::replay),
         "C04" => (props::c04::run, props::c04::replay),
+        "C05" => (props::c05::run_c05, props::c05::replay_c05),
+        "C06" => (props::c05::run_c06, props::c05::replay_c06),
         "C07" => (props::c07::run, props::c07::replay),
         "C08" => (props::c08::run, props::c08::replay),
         "C09" => (props::c09::run, props::c09::replay),
